@@ -60,7 +60,7 @@ class FieldsWorld(World):
     )
 
     def runs(self, prop, tier):
-        return {"quick": 1600, "thorough": 50000}[tier]
+        return {"quick": 6000, "thorough": 80000}[tier]
 
     def state_targets(self, prop, states):
         out = {}
